@@ -29,6 +29,10 @@ type AnnotationLinkValidator struct {
 	groupedAttributes classifiedAttributes
 	funcParamNames    mapset.Set[string]
 	urlParams         []string // Note we're using a slice here since we have to validate there aren't any duplicates
+
+	// The controller-level @Route, if any. Its {parameters} lead urlParams.
+	controllerRoute     *annotations.Attribute
+	controllerRouteFile string
 }
 
 // NewAnnotationLinkValidator constructs the validator.
@@ -48,6 +52,37 @@ func NewAnnotationLinkValidator(recv *metadata.ReceiverMeta) (AnnotationLinkVali
 		funcParamNames:    getReceiverParamsNameSet(recv),
 		urlParams:         extractUrlParams(classifiedAttrs.route.Value),
 	}, nil
+}
+
+// NewAnnotationLinkValidatorForController constructs the validator for a receiver whose full URL template
+// starts with the given controller-level @Route: {parameters} of the controller route must be linked too.
+func NewAnnotationLinkValidatorForController(
+	recv *metadata.ReceiverMeta,
+	controllerAnnotations *annotations.AnnotationHolder,
+) (AnnotationLinkValidator, error) {
+	validator, err := NewAnnotationLinkValidator(recv)
+	if err != nil || controllerAnnotations == nil {
+		return validator, err
+	}
+
+	controllerRoute := controllerAnnotations.GetFirst(annotations.GleeceAnnotationRoute)
+	if controllerRoute == nil {
+		return validator, nil
+	}
+
+	validator.controllerRoute = controllerRoute
+	validator.controllerRouteFile = controllerAnnotations.FileName()
+	validator.urlParams = append(extractUrlParams(controllerRoute.Value), validator.urlParams...)
+	return validator, nil
+}
+
+// getUrlParamOrigin returns the file and range of the given URL parameter's first occurrence,
+// looking at the controller-level route first, as its parameters lead the URL
+func (v AnnotationLinkValidator) getUrlParamOrigin(urlParam string) (string, common.ResolvedRange) {
+	if v.controllerRoute != nil && slices.Contains(extractUrlParams(v.controllerRoute.Value), urlParam) {
+		return v.controllerRouteFile, getRangeForUrlParam(*v.controllerRoute, urlParam)
+	}
+	return v.receiver.Annotations.FileName(), getRangeForUrlParam(v.groupedAttributes.route, urlParam)
 }
 
 // Validate runs the nine checks and returns resolved diagnostics.
@@ -110,13 +145,14 @@ func (v AnnotationLinkValidator) validateRoute() []diagnostics.ResolvedDiagnosti
 
 	for _, urlParam := range v.urlParams {
 		// Verify each URL param appears exactly once
+		paramFile, paramRange := v.getUrlParamOrigin(urlParam)
 		if witnessedUrlParams.Contains(urlParam) {
 			diags = append(diags, diagnostics.NewDiagnostic(
-				v.receiver.Annotations.FileName(),
+				paramFile,
 				fmt.Sprintf("Duplicate URL parameter '%s'", urlParam),
 				diagnostics.DiagLinkerDuplicateUrlParam,
 				diagnostics.DiagnosticError,
-				getRangeForUrlParam(v.groupedAttributes.route, urlParam),
+				paramRange,
 			))
 		} else {
 			witnessedUrlParams.Add(urlParam)
@@ -124,11 +160,11 @@ func (v AnnotationLinkValidator) validateRoute() []diagnostics.ResolvedDiagnosti
 
 		if !referencedParams.Contains(urlParam) {
 			diags = append(diags, diagnostics.NewDiagnostic(
-				v.receiver.Annotations.FileName(),
+				paramFile,
 				fmt.Sprintf("URL parameter '%s' does not have a corresponding @Path annotation", urlParam),
 				diagnostics.DiagLinkerRouteMissingPath,
 				diagnostics.DiagnosticError,
-				getRangeForUrlParam(v.groupedAttributes.route, urlParam),
+				paramRange,
 			))
 		}
 	}
@@ -222,11 +258,41 @@ func (v AnnotationLinkValidator) validatePathAnnotations(
 						pathAttr.Comment.Range(),
 					))
 				}
+			} else if v.funcParamNames.Contains(expectedFuncParamName) &&
+				!slices.Contains(v.urlParams, expectedFuncParamName) &&
+				!v.hasUnboundUrlParam() {
+				// Without an alias, the @Path value itself must name a URL parameter.
+				// If a URL parameter is left unbound, that diagnostic already covers the mismatch.
+				suggestion := getContextualAppendedSuggestion(
+					expectedFuncParamName,
+					v.urlParams,
+					common.MapKeys(seenFuncParams),
+				)
+				diags = append(diags, diagnostics.NewErrorDiagnostic(
+					v.receiver.Annotations.FileName(),
+					fmt.Sprintf("@Path '%s' does not match any URL parameter%s", expectedFuncParamName, suggestion),
+					diagnostics.DiagLinkerPathInvalidRef,
+					pathAttr.GetValueRange(),
+				))
 			}
 		}
 	}
 
 	return diags
+}
+
+// hasUnboundUrlParam returns a boolean indicating whether any URL parameter lacks a matching @Path alias or value
+func (v AnnotationLinkValidator) hasUnboundUrlParam() bool {
+	for _, urlParam := range v.urlParams {
+		isBound := slices.ContainsFunc(v.groupedAttributes.path, func(attr annotations.Attribute) bool {
+			alias, _ := v.getPathAliasOrName(attr)
+			return alias == urlParam
+		})
+		if !isBound {
+			return true
+		}
+	}
+	return false
 }
 
 func (v AnnotationLinkValidator) validateNonPathAnnotations(
